@@ -137,6 +137,11 @@ func (g *Graph) Canon() error {
 		// This indicates a severe error in orderedNodes.
 		panic("root " + g.Nodes[on.Root].Version.String() + " no longer at index 0")
 	}
+	// Less keeps the root in place without ordering it, so the sort need
+	// not have compared the root with a duplicate of it.
+	for i := 1; i < len(on.Nodes) && !on.Dupe; i++ {
+		on.Dupe = on.Nodes[i].Compare(on.Nodes[0]) == 0
+	}
 	g.renumber(on.Mapping(), false)
 
 	if on.Dupe {
